@@ -24,7 +24,6 @@ SOFTWARE.
 Representation of the Einsum equation
 """
 from collections import Counter
-from itertools import chain
 
 from lark.lexer import Token
 from lark.tree import Tree
@@ -217,9 +216,9 @@ class Equation:
 
         Note: returns the output ranks first
         """
-        term_iter = chain(
-            self.equation.find_data("times"),
-            self.equation.find_data("take"))
+        # Note: visit the terms in the order they are written
+        term_iter = (tree for tree in self.equation.iter_subtrees_topdown()
+                     if tree.data == "times" or tree.data == "take")
 
         # Get the ranks in a term of inputs
         term_ranks = Equation.__get_term_ranks(next(term_iter))
@@ -273,14 +272,16 @@ class Equation:
         """
         Return a list of ranks in the tensor
         """
+        # Note: visit the index terms in the order they are written
         str_ranks = []
-        for ijust in ranks.find_data("ijust"):
-            rank = ParseUtils.next_str(ijust).upper()
-            str_ranks.append(rank)
+        for iterm in ranks.iter_subtrees_topdown():
+            if iterm.data == "ijust":
+                rank = ParseUtils.next_str(iterm).upper()
+                str_ranks.append(rank)
 
-        for itimes in ranks.find_data("itimes"):
-            rank = str(itimes.children[1]).upper()
-            str_ranks.append(rank)
+            elif iterm.data == "itimes":
+                rank = str(iterm.children[1]).upper()
+                str_ranks.append(rank)
 
         return str_ranks
 
